@@ -192,6 +192,10 @@ class TreeSim(WorldBase):
         targets = set()
         status = "ok"
         culprit = ev[1] if kind == "op" else (ev[2] if kind == "start" else kind)
+        if kind == "op" and ev[1] in ("vr", "ro"):
+            culprit = f"{ev[1]}_{ev[2].get('kind')}"
+        if kind == "start" and ev[2] == "rotrav":
+            culprit = "t_rotrav"
         out = {}
         try:
             if kind == "op":
@@ -201,11 +205,11 @@ class TreeSim(WorldBase):
                 res = self.ev_start(ev[1], ev[2], ev[3], targets)
             elif kind == "step":
                 t = self.tasks.get(ev[1])
-                culprit = t.kind if t else "step"
+                culprit = ("t_rotrav" if t.kind == "rotrav" else t.kind) if t else "step"
                 res = self.ev_step(ev[1], ev[2], targets)
             elif kind == "cancel":
                 t = self.tasks.get(ev[1])
-                culprit = t.kind if t else "cancel"
+                culprit = ("t_rotrav" if t.kind == "rotrav" else t.kind) if t else "cancel"
                 res = self.ev_cancel(ev[1], targets)
             else:
                 raise Skip("unknown event")
@@ -220,7 +224,7 @@ class TreeSim(WorldBase):
         out["status"] = status
         if status != "ok":
             self.probe(f"status:{culprit}:{status}")
-        self.sched.append([kind, culprit if kind != "op" else ev[1]])
+        self.sched.append([kind, culprit])
         self.after_event(kind, culprit, status, targets, before, out)
         return out
 
@@ -276,6 +280,15 @@ class TreeSim(WorldBase):
         # --- content model (C03 / C05 judge it, everybody else follows the tree)
         for s in list(self.slots):
             sl = self.slots[s]
+            if s in targets and not sl.free and not out.get("judged"):
+                # <<= adopts the source's default: the leaf default is an attribute, follow it
+                try:
+                    d = Payload.get(sl.t.getDefault())
+                    if not isinstance(d, type) and d != sl.default:
+                        sl.default = d
+                        self.probe("default_changed")
+                except Exception:
+                    pass
             if s in targets:
                 if self.prop in ("C03", "C05") and out.get("judged"):
                     got = ob.content(sl.root, sl.default)
@@ -388,7 +401,7 @@ class TreeSim(WorldBase):
             if not shape:
                 raise Skip("shape")
             default = src.default
-            t = Tensor(rank_ids=IDS[k:k + len(shape)], shape=shape, default=default)
+            t = Tensor(rank_ids=[f"R{i}" for i in range(len(shape))], shape=[tuple(x) if isinstance(x, list) else x for x in shape], default=default)
             t.setRoot(f)
         else:
             raise Skip("route")
@@ -832,8 +845,18 @@ class TreeSim(WorldBase):
         self.fault("cancel:" + t.kind)
         if t.yields > 0:
             self.probe("cancel_mid_traversal")
+        self._taint(t)
         self._close(t, targets)
         return {"judged": True, "cancelled_after": t.yields}
+
+    def _taint(self, t):
+        """a cancelled traversal may leave its just-created element behind: every enclosing
+        loop's current coordinate is exempt from the leaves-nothing-behind clause"""
+        p = self.tasks.get(t.parent) if t.parent is not None else None
+        while p is not None:
+            if p.cur is not None:
+                p.info.setdefault("tainted", set()).add(ob._k(p.cur[0]))
+            p = self.tasks.get(p.parent) if p.parent is not None else None
 
     def _close(self, t, targets):
         try:
@@ -1032,7 +1055,7 @@ class TreeSim(WorldBase):
         offered = set(ob._k(c) for c in info["got"])
         for c in info["got"]:
             kc = ob._k(c)
-            if kc in info["z_before"]:
+            if kc in info["z_before"] or kc in info.get("tainted", ()):
                 continue
             p = now.get(kc)
             if p is None:
@@ -1182,7 +1205,12 @@ class TreeSim(WorldBase):
             fn = getattr(self, "gen_" + kind, None)
             if fn is None:
                 continue
-            ev = fn(g)
+            try:
+                ev = fn(g)
+            except TypeError:
+                # mixed int / tuple coordinates after rank transforms: this op does not apply here
+                self.probe("gen_inapplicable:" + kind)
+                ev = None
             if ev is not None:
                 return ev
         return None
@@ -1191,8 +1219,11 @@ class TreeSim(WorldBase):
     def rand_coord(self, g, sh, f=None, bias_existing=0.5):
         if f is not None and f.coords and g.random() < bias_existing:
             return f.coords[g.randrange(len(f.coords))]
+        if f is not None and f.coords:
+            # follow the kind of coordinate the fiber actually stores
+            return _like(g, f.coords[0], sh)
         if isinstance(sh, (tuple, list)):
-            return tuple(g.randrange(max(1, x)) for x in sh)
+            return tuple(self.rand_coord(g, x) for x in sh)
         if sh is None:
             return g.randrange(6)
         return g.randrange(max(1, sh))
@@ -1235,7 +1266,10 @@ class TreeSim(WorldBase):
     def rand_sp(self, g, f, c):
         if f is None or not f.coords or g.random() < 0.5:
             return None
-        legal = [0] + [p for p in range(1, len(f.coords)) if f.coords[p] <= c]
+        try:
+            legal = [0] + [p for p in range(1, len(f.coords)) if f.coords[p] <= c]
+        except TypeError:
+            return None
         # always interesting: exact position and last legal position
         r = g.random()
         if r < 0.3:
@@ -1698,6 +1732,15 @@ class TreeSim(WorldBase):
         return ["start", tid, "populate", {"parent": t.tid}]
 
 
+def _like(g, c, sh):
+    if isinstance(c, tuple):
+        shs = sh if isinstance(sh, (tuple, list)) and len(sh) == len(c) else [4] * len(c)
+        return tuple(_like(g, x, s) for x, s in zip(c, shs))
+    if isinstance(sh, int) and sh > 0:
+        return g.randrange(sh)
+    return g.randrange(6)
+
+
 def _free_depth(f):
     d = 1
     while f.payloads and isinstance(f.payloads[0], Fiber):
@@ -1731,18 +1774,22 @@ ALLMUT = {"ref": 6, "hw": 3, "posref": 2, "append": 2, "extend": 1, "setitem": 3
           "filshift": 1.5, "updc": 1.5, "updp": 1.5, "clear": 1, "populate": 3, "descend": 6, "ishaperef": 2,
           "new_op": 0.5}
 BASE_WEIGHTS = {
-    "C01": dict(ALLMUT, get=1, rotrav=0.5),
-    "C02": dict(ALLMUT, get=2, getpos=0.5, rotrav=1.5),
+    "C01": dict(ALLMUT, get=1, rotrav=0.5, vr=1.5, ro=0.5),
+    "C02": dict(ALLMUT, get=2, getpos=0.5, rotrav=1.5, vr=2.5, ro=3),
     "C03": {"ref": 8, "hw": 5, "posref": 3, "get": 8, "getpos": 3, "append": 0.5, "setitem": 0.7, "clear": 0.3,
             "populate": 0.7, "descend": 2, "updp": 0.3, "fimul": 0.3, "filshift": 0.3, "new_op": 0.3},
     "C05": {"populate": 8, "descend": 10, "ref": 3, "hw": 1, "get": 3, "setitem": 1, "clear": 0.3, "filshift": 0.5,
             "fimul": 0.5, "rotrav": 0.5, "new_op": 0.7},
-    "C10": dict(ALLMUT, get=2, getpos=1, rotrav=2),
+    "C10": dict(ALLMUT, get=2, getpos=1, rotrav=2, vr=10, ro=10, render=0.12),
 }
 FOCUS = {
     "C01": {"ref", "setitem", "append", "populate", "descend"},
     "C02": {"ref", "populate", "descend", "clear", "filshift"},
     "C03": {"ref", "hw", "get", "getpos", "posref"},
     "C05": {"populate", "descend"},
-    "C10": {"ref", "get"},
+    "C10": {"ref", "vr", "ro"},
 }
+
+
+from . import treesim_ops  # noqa: E402
+treesim_ops.install(TreeSim)
